@@ -31,7 +31,7 @@ from .. import q
 from ..model import AnalysisError
 from ..rules import call_sites, require_before, node_calls
 from ..mutate import mutate, remove_stmts, replace_expr, replace_stmt, parse_stmt, parse_expr
-from ..x_http import norm_func, Flow, atom_edges, leads_to_raise, only_through, reach_without, node_mentions, single_bindings, canon_atom, contains, raised_class
+from ..x_http import norm_func, Flow, mk_evaluator, const_of, bound_args, module_consts, atom_edges, leads_to_raise, only_through, reach_without, node_mentions, single_bindings, canon_atom, contains, raised_class
 
 TECHNIQUE = "branch-edge guard dominance (limit comparison before delivery) + who-reads-which-limit (fresh vs. by-value copy) + bounded-read lint"
 EXPLANATION = (
@@ -129,11 +129,13 @@ def check_bounded_reads(ck):
                 if kind == "read_until_regex":
                     ck.ob(R, f, c, mb is not None and q.dotted(mb) == "self.params.max_header_size", "the header block is read within params.max_header_size")
                 elif ok:
-                    ck.ob(R, f, c, isinstance(mb, ast.Constant) and type(mb.value) is int and 0 < mb.value <= 4096, "a protocol line (chunk size) is read within a small constant bound")
+                    mbc = const_of(f, mb)
+                    ck.ob(R, f, c, mbc is not None and type(mbc.value) is int and 0 < mbc.value <= 4096, "a protocol line (chunk size) is read within a small constant bound")
             else:
                 sz = _x(f, q.arg(c, 0, "num_bytes"))
-                okc = isinstance(sz, ast.Constant) and type(sz.value) is int and sz.value <= 65536
-                okm = isinstance(sz, ast.Call) and isinstance(sz.func, ast.Name) and sz.func.id == "min" and any(q.dotted(a) == "self.params.chunk_size" or (isinstance(a, ast.Constant) and type(a.value) is int) for a in sz.args)
+                szc = const_of(f, sz) if sz is not None else None
+                okc = szc is not None and type(szc.value) is int and szc.value <= 65536
+                okm = isinstance(sz, ast.Call) and isinstance(sz.func, ast.Name) and sz.func.id == "min" and any(q.dotted(_x(f, a)) == "self.params.chunk_size" or (const_of(f, a) is not None and type(const_of(f, a).value) is int) for a in sz.args)
                 ck.ob(R, f, c, okc or okm, "read_bytes asks for at most params.chunk_size (or a constant) bytes at a time")
     ck.floor(R, n, 4, "stream reads in http1connection.py")
     p = _F(ck, H1, "HTTP1ConnectionParameters.__init__")
@@ -167,7 +169,7 @@ def check_iostream(ck):
     cm = ck.func(IO, "BaseIOStream._check_max_bytes")
 
     def fold(buf, mode, max_bytes):
-        ev = Evaluator()
+        ev = mk_evaluator(fr)
         ev.inline = lambda d: cm.node if d == "self._check_max_bytes" else None
         me = Obj("self", _read_buffer=bytearray(buf), _read_buffer_size=len(buf), _read_bytes=None, _read_partial=False,
                  _read_delimiter=(b"\r\n" if mode == "delimiter" else None), _read_regex=(_re.compile(b"\r?\n\r?\n") if mode == "regex" else None),
@@ -218,7 +220,7 @@ def check_iostream(ck):
                 return UNK
             return NotImplemented
 
-        ev = Evaluator()
+        ev = mk_evaluator(f)
         ev.fallback = fb
         me = Obj("self", _read_buffer_size=before, max_buffer_size=cap, _user_read_buffer=False, read_chunk_size=4096, _read_buffer=UNK)
         outs = ev.run(f.node, {"self": me})
@@ -301,32 +303,48 @@ def eval_chunked(ck, fi, sizes, limit, is_client=False, write_finished=False):
         if i_ >= len(script):
             raise Raised("iostream.StreamClosedError")
         s_.attrs["_pos"] = i_ + 1
+        if s_.attrs["_owed"]:
+            s_.attrs["_short"] = True  # a new size line is read although chunk data is still owed
+        if i_ < len(sizes):
+            s_.attrs["_owed"] = sizes[i_]
         return script[i_]
 
     def fb(st, c, d, args):
         nm = q.call_attr(c)
-        if nm == "read_bytes" and args and isinstance(args[0], int):
-            n = args[0]
+        from ..x_absint import call_value
+        if nm == "read_bytes" and isinstance(call_value(st, args, 0, "num_bytes"), int):
+            n = call_value(st, args, 0, "num_bytes")
             partial = any(k.arg == "partial" for k in c.keywords) or len(args) > 1
             s_ = stream_of(st)
-            if not isinstance(c.args[0], ast.Constant):
+            size_e = c.args[0] if c.args else q.kwarg(c, "num_bytes")
+            if const_of(fi, size_e) is None:
                 got = (n + 1) // 2 if partial else n  # a partial read returns fewer bytes than asked for
+                owed = s_.attrs["_owed"]
+                if n > owed:
+                    s_.attrs["_over_request"] = True
+                s_.attrs["_owed"] = max(0, owed - got)
+                k_ = s_.attrs["_reads"] = s_.attrs["_reads"] + 1
                 s_.attrs["_data_read"] = s_.attrs["_data_read"] + got
-                return b"x" * got
+                data = bytes([65 + k_ % 26]) * got
+                s_.attrs["_read_bytes"] = s_.attrs["_read_bytes"] + data
+                return data
             return b"\r\n"[:n] if n <= 2 else UNK
         if nm == "read_until":
             return read_until(st)
         if nm == "data_received":
-            if args and isinstance(args[0], (bytes, bytearray)):
+            a0 = args[0] if args else (list(st.last_kwargs.values())[0] if len(st.last_kwargs) == 1 else UNK)
+            if isinstance(a0, (bytes, bytearray)):
                 s_ = stream_of(st)
-                s_.attrs["_delivered"] = s_.attrs["_delivered"] + len(args[0])
+                s_.attrs["_delivered"] = s_.attrs["_delivered"] + len(a0)
+                s_.attrs["_delivered_bytes"] = s_.attrs["_delivered_bytes"] + bytes(a0)
             return None
         return NotImplemented
 
-    ev = Evaluator(funcs={"parse_hex_int": _hex_hook, "native_str": _to_str_hook, "to_unicode": _to_str_hook}, modset=lambda d: ms.get(d.split(".")[1]))
+    ev = mk_evaluator(fi, funcs={"parse_hex_int": _hex_hook, "native_str": _to_str_hook, "to_unicode": _to_str_hook}, modset=lambda d: ms.get(d.split(".")[1]))
+    ev.signatures.update({"parse_hex_int": ["s"], "native_str": ["value"], "to_unicode": ["value"]})
     ev.fallback = fb
     ev.max_unroll = len(sizes) + 3
-    stream = Obj("stream", _pos=0, _delivered=0, _data_read=0, max_buffer_size=10 ** 6)
+    stream = Obj("stream", _pos=0, _delivered=0, _data_read=0, _owed=0, _over_request=False, _short=False, _reads=0, _read_bytes=b"", _delivered_bytes=b"", max_buffer_size=10 ** 6)
     me = Obj("self", stream=stream, is_client=is_client, _write_finished=write_finished, _max_body_size=limit,
              params=Obj("params", chunk_size=4, max_body_size=10 ** 6))
     outs = ev.run(fi.node, dict({"self": me}, **{p: Obj("delegate") for p in ps}))
@@ -334,6 +352,8 @@ def eval_chunked(ck, fi, sizes, limit, is_client=False, write_finished=False):
     for o in outs:
         s_ = o.state.env["self"].attrs["stream"]
         res.append((o.kind, o.value if o.kind == "raise" else None, s_.attrs["_delivered"], s_.attrs["_data_read"]))
+    eval_chunked.last_detail = [(o.state.env["self"].attrs["stream"].attrs["_over_request"], o.state.env["self"].attrs["stream"].attrs["_short"],
+                                 o.state.env["self"].attrs["stream"].attrs["_read_bytes"], o.state.env["self"].attrs["stream"].attrs["_delivered_bytes"]) for o in outs]
     return res
 
 
@@ -387,14 +407,11 @@ def eval_gzip(ck, fi, chunk_len, start_total, limit_setup, chunk_size=8, ratio=4
 
     def fb(st, c, d, args):
         nm = q.call_attr(c)
-        if nm == "decompress" and args and isinstance(args[0], (bytes, bytearray)):
+        from ..x_absint import call_value
+        if nm == "decompress" and isinstance(call_value(st, args, 0, "value"), (bytes, bytearray)):
             recv = ev.ev(c.func.value, st)
-            data = bytes(args[0])
-            ml = args[1] if len(args) > 1 else None
-            if ml is None:
-                for k in c.keywords:
-                    if k.arg == "max_length":
-                        ml = ev.ev(k.value, st)
+            data = bytes(call_value(st, args, 0, "value"))
+            ml = call_value(st, args, 1, "max_length", None)
             me_ = st.env["self"]
             me_.attrs["_ml_args"] = me_.attrs["_ml_args"] + [ml]
             produce = ratio * len(data)
@@ -406,7 +423,8 @@ def eval_gzip(ck, fi, chunk_len, start_total, limit_setup, chunk_size=8, ratio=4
             return b"y" * produce
         if nm == "data_received":
             me_ = st.env["self"]
-            me_.attrs["_forwarded"] = me_.attrs["_forwarded"] + [len(args[0]) if args and isinstance(args[0], (bytes, bytearray)) else None]
+            a0 = args[0] if args else (list(st.last_kwargs.values())[0] if len(st.last_kwargs) == 1 else None)
+            me_.attrs["_forwarded"] = me_.attrs["_forwarded"] + [len(a0) if isinstance(a0, (bytes, bytearray)) else None]
             return None
         return NotImplemented
 
@@ -414,7 +432,7 @@ def eval_gzip(ck, fi, chunk_len, start_total, limit_setup, chunk_size=8, ratio=4
         # zlib-level view as well (decompressobj.eof / unused_data), for code that looks at gzip member boundaries
         return Obj("decompressor", unconsumed_tail=b"", decompressobj=Obj("zobj", eof=eof, unused_data=b"", unconsumed_tail=b""), eof=eof, unused_data=b"")
 
-    ev = Evaluator(funcs={"GzipDecompressor": lambda st, *a: new_dec()})
+    ev = mk_evaluator(fi, funcs={"GzipDecompressor": lambda st, *a: new_dec()})
     ev.fallback = fb
     ev.max_unroll = chunk_len * ratio // chunk_size + 4
 
@@ -634,7 +652,7 @@ def check_limit_init(ck, LIVE, R):
     ms = self_modsets(ck.repo, H1, "HTTP1Connection")
     attr = LIVE.split(".", 1)[1]
     for configured in (None, 0, 500):
-        ev = Evaluator(modset=lambda d: ms.get(d.split(".")[1]))
+        ev = mk_evaluator(ci, modset=lambda d: ms.get(d.split(".")[1]))
         env = {"self": Obj("self"), ps[0]: Obj("stream", max_buffer_size=9999), ps[1]: False,
                ps[2]: Obj("params", max_body_size=configured, body_timeout=None, no_keep_alive=False, max_header_size=65536, chunk_size=65536, header_timeout=None, decompress=False)}
         for p in ps[3:]:
@@ -668,7 +686,10 @@ def check_wiring(ck):
     want = {"max_header_size": "max_header_size", "max_body_size": "max_body_size", "chunk_size": "chunk_size", "decompress": "decompress_request"}
     for c in calls:
         for k, src in want.items():
-            v = _x(fi, q.kwarg(c, k))
+            b_ = bound_args(ck.repo, fi, c)
+            if b_ is None:
+                raise AnalysisError("HTTPServer.initialize: arguments of HTTP1ConnectionParameters(...) not decidable")
+            v = _x(fi, b_.get(k))
             ck.ob(R, fi, c, v is not None and q.dotted(v) == src, "HTTPServer passes its %s as HTTP1ConnectionParameters.%s" % (src, k), construct="%s=%s" % (k, src))
     tcp = [c for c in q.calls(fi.node) if q.dotted(c.func) == "TCPServer.__init__"]
     ck.floor(R, len(tcp), 1, "TCPServer.__init__ calls in HTTPServer.initialize")
@@ -720,6 +741,7 @@ def run(ck):
     check_chunked(ck, LIVE)
     gz = check_gzip(ck, LIVE)
     from . import c01 as _c01
+    _c01.init_modules(ck)
     _c01.check_counted_reads(ck, _F(ck, H1, "HTTP1Connection._read_fixed_body"), set(), RP="C04")
     lens = {st.targets[0].id for st in q.walk_body(_F(ck, H1, "HTTP1Connection._read_chunked_body").node) if isinstance(st, ast.Assign) and isinstance(st.targets[0], ast.Name) and isinstance(st.value, ast.Call) and q.call_attr(st.value) in ("parse_hex_int", "int")}
     _c01.check_counted_reads(ck, _F(ck, H1, "HTTP1Connection._read_chunked_body"), lens, RP="C04")
